@@ -58,6 +58,8 @@ func VerifConstsC12() map[string]any {
 		m["bbr_"+string(p)+"_detectOvershooting"] = b2u(c.detectOvershooting)
 		m["bbr_"+string(p)+"_ackAggStartup"] = b2u(c.enableAckAggregationStartup)
 		m["bbr_"+string(p)+"_expireAckAggStartup"] = b2u(c.expireAckAggregationStartup)
+		m["bbr_"+string(p)+"_overestimateAvoidance"] = b2u(c.enableOverestimateAvoidance)
+		m["bbr_"+string(p)+"_reduceExtraAcked"] = b2u(c.reduceExtraAckedOnBandwidthIncrease)
 	}
 	return m
 }
